@@ -318,4 +318,95 @@ theorem headerOK_headerLine (db table : Bytes) : Spec.CsvExport.headerOK db tabl
       exact mem_splits _ _ _ (by decide)
     · simp [Proofs.SqlLex.commentDecode_commentText]
 
+
+/-! ### reading a multi-table export section by section -/
+
+theorem takeLine_line (line rest : Bytes) (h : ∀ c ∈ line, (c == 10 || c == 13) = false) :
+    Spec.CsvExport.takeLine (line ++ 10 :: rest) = some (line, rest) := by
+  induction line with
+  | nil => simp [Spec.CsvExport.takeLine]
+  | cons c line ih =>
+    have hc : c ≠ 10 := by
+      intro e; have := h c (by simp); subst e; simp at this
+    simp only [List.cons_append, Spec.CsvExport.takeLine, hc, if_false]
+    rw [ih (fun d hd => h d (by simp [hd]))]
+    rfl
+
+theorem takeRecords_lines (recs : List (List Bytes)) (hall : ∀ r ∈ recs, r ≠ []) (tail : Bytes) :
+    takeRecords recs.length (linesText recs ++ tail) = some (recs, tail) := by
+  induction recs with
+  | nil => simp [takeRecords, linesText]
+  | cons r recs ih =>
+    have hr : r ≠ [] := hall r (by simp)
+    obtain ⟨c, t, hct, h10, h13⟩ := lineText_head r hr
+    have hlen := lineText_length r hr
+    have hlt : linesText (r :: recs) ++ tail = c :: (t ++ (linesText recs ++ tail)) := by
+      simp [linesText, hct]
+    rw [hlt]
+    rw [List.length_cons, takeRecords, skipBlank_cons c _ h10 h13]
+    simp only []
+    have hrec : record ((c :: (t ++ (linesText recs ++ tail))).length + 1) (c :: (t ++ (linesText recs ++ tail)))
+        = some (r, linesText recs ++ tail) := by
+      have := record_lineText r hr (linesText recs ++ tail) ((c :: (t ++ (linesText recs ++ tail))).length + 1)
+        (by rw [hct] at hlen; simp only [List.length_cons, List.length_append] at hlen ⊢; omega)
+      rw [hct] at this
+      simpa using this
+    rw [hrec]
+    simp only []
+    rw [ih (fun x hx => hall x (by simp [hx]))]
+    rfl
+
+/-- the records a reader must get from a table's section (none for a table without columns) -/
+def expectedOf (F : FloatFmt) (t : TableDump) : List (List Bytes) := if t.columns.isEmpty then [] else expectedRecords F t
+
+theorem tableToCSV_expectedOf (F : FloatFmt) (t : TableDump) (hh : t.columns.map (·.name) ≠ [[]]) :
+    tableToCSV F t = linesText (expectedOf F t) ∧ ∀ r ∈ expectedOf F t, r ≠ [] := by
+  unfold expectedOf
+  by_cases he : t.columns.isEmpty = true
+  · simp only [he, if_true]
+    exact ⟨by simp [tableToCSV, he, linesText], by simp⟩
+  · have hc : t.columns ≠ [] := by intro e; simp [e] at he
+    simp only [he, Bool.false_eq_true, if_false]
+    refine ⟨tableToCSV_lines F t hc hh, ?_⟩
+    intro r hr
+    simp only [expectedRecords, List.mem_cons, List.mem_map] at hr
+    rcases hr with h | ⟨row, _, h⟩
+    · subst h; simpa using hc
+    · subst h; simpa using hc
+
+def sectionsOfDb (F : FloatFmt) (db : DatabaseDump) : List (Bytes × Bytes × List (List Bytes)) :=
+  db.tables.map fun t => (db.name, t.name, expectedOf F t)
+
+theorem sections_ok (F : FloatFmt) (dbname : Bytes) : ∀ (ts : List TableDump) (more : List (Bytes × Bytes × List (List Bytes))) (tail : Bytes),
+    (∀ t ∈ ts, t.columns.map (·.name) ≠ [[]]) →
+    Spec.CsvExport.sectionsVerdict ((ts.map fun t => (dbname, t.name, expectedOf F t)) ++ more)
+      ((ts.flatMap fun t => sectionHeader dbname t.name ++ tableToCSV F t ++ [10]) ++ tail)
+      = Spec.CsvExport.sectionsVerdict more tail
+  | [], more, tail, _ => by simp
+  | t :: ts, more, tail, h => by
+    obtain ⟨hlines, hne⟩ := tableToCSV_expectedOf F t (h t (by simp))
+    have ih := sections_ok F dbname ts more tail (fun x hx => h x (by simp [hx]))
+    simp only [List.map, List.flatMap_cons, List.cons_append, List.append_assoc]
+    rw [Spec.CsvExport.sectionsVerdict, sectionHeader_eq, List.append_assoc]
+    simp only [List.cons_append, List.nil_append]
+    rw [takeLine_line _ _ (headerLine_noNewline dbname t.name)]
+    simp only [headerOK_headerLine, Bool.not_true, Bool.false_eq_true, if_false]
+    rw [hlines, takeRecords_lines _ hne]
+    simp only [bne_self_eq_false, Bool.false_eq_true, if_false]
+    simp only [List.append_assoc] at ih
+    exact ih
+
+
+def sectionsOf (F : FloatFmt) (d : DumpResult) : List (Bytes × Bytes × List (List Bytes)) := d.flatMap (sectionsOfDb F)
+
+theorem dump_sections_ok (F : FloatFmt) : ∀ (d : DumpResult), (∀ db ∈ d, ∀ t ∈ db.tables, t.columns.map (·.name) ≠ [[]]) →
+    Spec.CsvExport.sectionsVerdict (sectionsOf F d) (toCSV F d) = "ok"
+  | [], _ => by simp [sectionsOf, toCSV, Spec.CsvExport.sectionsVerdict]
+  | db :: d, h => by
+    have ih := dump_sections_ok F d (fun x hx => h x (by simp [hx]))
+    have := sections_ok F db.name db.tables (sectionsOf F d) (toCSV F d) (h db (by simp))
+    simp only [sectionsOf, toCSV, List.flatMap_cons, sectionsOfDb, dbToCSV] at this ih ⊢
+    rw [this]
+    exact ih
+
 end PgVerif.Proofs.CsvParse
